@@ -65,11 +65,12 @@ def run(chk):
   structs = []
   for i in range(1500 if thorough else 200):
     nf = rng.randint(1, 5)
-    fields = [['f%d' % j, rng.choice(['data', 'data', 'static']), rng.choice([None, None, 'shared', 'shared', 'own'])] for j in range(nf)]
+    fields = [['f%d' % j, rng.choice(['data', 'data', 'static']), rng.choice([None, None, 'shared', 'shared', 'own', 'fwd'])] for j in range(nf)]
     structs.append({'fields': fields, 'base': rng.choice(['dataclass', 'pytreenode']),
                     'values': [rng.randint(-5, 5) if f[1] == 'data' else 's%d' % rng.randint(0, 3) for f in fields],
                     'replace': rng.randint(0, 10)})
   payloads[0]['structs'] = structs
+  payloads[1]['xproc'] = [chk.seed * 7919 + i for i in range(600 if thorough else 120)]
   results = common.run_impl_parallel('impl_c15.py', payloads, workers=W)
   seqs = [None] * nseq
   for k, r in enumerate(results):
@@ -136,10 +137,19 @@ Definition chk (c : list bool * list N * list N) : bool :=
   for i in bad[:5]:
     chk.violation('correspondence', 'Model/Struct.v and flax.struct disagree on the pytree leaves of a dataclass', {'case': structs[i]})
   chk.cov['traces_validated_against_impl'] += len(scoq)
+  xp = results[1]['xproc']
+  if 'err' in xp:
+    chk.violation('oracle', 'unpickling FrozenDicts in a fresh interpreter failed', xp)
+  else:
+    chk.count({'xproc': xp['n']}, True)
+    chk.notes['cross_process_pickle'] = {'frozendicts': xp['n'], 'hashed_before_pickling': xp['hashed'], 'child_hash_seeds': [1, 4242]}
+    for b in xp['bad']:
+      chk.violation('oracle', 'a FrozenDict pickled in one interpreter and unpickled in another (different string-hash seed) is not equal to / does not hash like / is not found as a key by '
+                    'the FrozenDict built there from the same contents', b)
   chk.notes['op_distribution'] = opcount
   chk.notes['ops_that_raised'] = raised
   chk.cov['rule'] = ('%d adaptive sequences of %d operations from {new dict/leaf, freeze/FrozenDict(), unfreeze, indexing, copy(add_or_replace), pop, tree_map / '
                      'flatten+unflatten, pickle, module-level copy/pop, adversarial d[k]=x and del d[k] on every plain dict held} with oracles after every step '
-                     '(snapshot-at-birth, id-level aliasing, setitem raises, eq/hash under reordering); %d struct layouts. non-trivial = the sequence both mutates a '
+                     '(snapshot-at-birth, id-level aliasing, setitem raises, eq/hash under reordering); %d struct layouts (user metadata shared / own / forwarded from a field marked the other way); FrozenDicts with string contents pickled across interpreters with different hash seeds. non-trivial = the sequence both mutates a '
                      'plain dict and uses a FrozenDict API successfully; distinct by canonical JSON hash' % (nseq, nsteps, len(structs)))
   chk.cov['trusted_base'] = ['Coq 8.16.1 kernel + vm_compute', 'harness/c15.py + impl_c15.py', 'harness/jaxcompat.py']
